@@ -72,7 +72,9 @@ func (e *Exec) fault(site string) int {
 		return 0
 	}
 	tag := e.fresh("fault."+site, IntSort)
-	return e.decide([]*Term{Eq(tag, IntI(0)), Eq(tag, IntI(1)), Not(Or(Eq(tag, IntI(0)), Eq(tag, IntI(1))))})
+	k := e.decide([]*Term{Eq(tag, IntI(0)), Eq(tag, IntI(1)), Not(Or(Eq(tag, IntI(0)), Eq(tag, IntI(1))))})
+	e.assertPC(Eq(tag, IntI(int64(k))))
+	return k
 }
 
 // transfer implements bank.SendCoins on the modelled ledger
